@@ -1,8 +1,13 @@
 import RexModel.Driver.C17
 import RexModel.Driver.Async
+import RexModel.Driver.C18
+import RexModel.Driver.C15
+import RexModel.Driver.C11
+import RexModel.Driver.C19
+import RexModel.Driver.C20
 
 namespace Rex.Driver
 def allHandlers : List (String × Handler) :=
   [("ping", fun _ => pure (Lean.Json.mkObj [("pong", Lean.Json.bool true)]))] ++
-  C17.handlers ++ Async.handlers
+  C17.handlers ++ Async.handlers ++ C18.handlers ++ C15.handlers ++ C11.handlers ++ C19.handlers ++ C20.handlers
 end Rex.Driver
